@@ -504,6 +504,63 @@ def _matmul(I, a, b):
     return ST((a.shape[0], b.shape[1]), lambda i, n: S(to_z3(i), to_z3(n), T), "float")
 
 
+@meth("sum")
+def _sum(I, t, dim=None, keepdim=False, **k):
+    """assumed contract of sum over one (symbolic) dimension: out[o] = S(o, n) for the partial sums S(o, 0) = 0,
+    S(o, j + 1) = S(o, j) + t[o with j at dim]  (quantified; instance builders recorded in ghost['sums'])"""
+    if dim is None or keepdim:
+        raise Unsupported("sum without a single dim / keepdim on symbolic shapes")
+    d = dim % len(t.shape)
+    out_shape = t.shape[:d] + t.shape[d + 1:]
+    n = to_z3(t.shape[d])
+    S = _fresh("partial_sum", *([z3.IntSort()] * (len(out_shape) + 1) + [z3.RealSort()]))
+    te = t.elem
+
+    def val(o, j):
+        x = te(*(list(o[:d]) + [j] + list(o[d:])))
+        if isinstance(x, (ct.NegGuarded, Guarded)):
+            raise Unsupported("sum over possibly-infinite entries")
+        x = to_z3(x)
+        return z3.ToReal(x) if z3.is_int(x) else x
+
+    base = lambda *o: S(*([to_z3(x) for x in o] + [z3.IntVal(0)])) == 0
+    step = lambda *oj: z3.Implies(to_z3(oj[-1]) >= 0, S(*([to_z3(x) for x in oj[:-1]] + [to_z3(oj[-1]) + 1])) == S(*[to_z3(x) for x in oj]) + val([to_z3(x) for x in oj[:-1]], to_z3(oj[-1])))
+    ov = [z3.Int("o_sum%d" % i) for i in range(len(out_shape))]
+    jv = z3.Int("j_sum")
+    I.ex.assume(z3.ForAll(ov, base(*ov)) if ov else base())
+    I.ex.assume(z3.ForAll(ov + [jv], step(*(ov + [jv]))))
+    I.ex.ghost.setdefault("sums", []).append({"S": S, "base": base, "step": step, "T": n, "kind": "sum", "val": val})
+    return ST(out_shape, lambda *idx: S(*([to_z3(i) for i in idx] + [n])), "float")
+
+
+def f_softmax(I, t, dim=-1, **k):
+    """assumed contract of softmax over one (symbolic) dimension of a rank-1 score vector with possibly -inf entries:
+    weights a(t) >= 0, a(t) = 0 where the score is -inf, partial sums W(0) = 0, W(j + 1) = W(j) + a(j), and W(n) = 1 when some
+    score in range is finite. Instance builders recorded in ghost['softmaxes']."""
+    if len(t.shape) != 1:
+        raise Unsupported("softmax of a tensor of rank > 1 on symbolic shapes")
+    n = to_z3(t.shape[0])
+    A = _fresh("softmax", z3.IntSort(), z3.RealSort())
+    W = _fresh("softmax_partial_sum", z3.IntSort(), z3.RealSort())
+    te = t.elem
+
+    def ninf(i):
+        f, _ = ct.ng_split(te(i))
+        return z3.BoolVal(f) if isinstance(f, bool) else f
+
+    rng = lambda i: z3.And(i >= 0, i < n)
+    weight = lambda i: z3.Implies(rng(i), z3.And(A(i) >= 0, z3.Implies(ninf(i), A(i) == 0)))
+    wstep = lambda j: z3.Implies(j >= 0, W(j + 1) == W(j) + A(j))
+    total_if_finite_at = lambda i: z3.Implies(z3.And(rng(i), z3.Not(ninf(i))), W(n) == 1)
+    iv = z3.Int("i_sm")
+    I.ex.assume(W(0) == 0)
+    I.ex.assume(z3.ForAll([iv], weight(iv)))
+    I.ex.assume(z3.ForAll([iv], wstep(iv)))
+    I.ex.assume(z3.ForAll([iv], total_if_finite_at(iv)))
+    I.ex.ghost.setdefault("softmaxes", []).append({"A": A, "W": W, "weight": weight, "wstep": wstep, "total_if_finite_at": total_if_finite_at, "n": n, "ninf": ninf})
+    return ST(t.shape, lambda i: A(to_z3(i)), "float")
+
+
 @meth("masked_fill")
 def _masked_fill(I, t, mask, value):
     return ST.ew(I, lambda m, x: sc_where(m, value, x), mask, t, dtype=t.dtype)
@@ -657,7 +714,8 @@ def dispatch(name, ct_fn):
     return f
 
 
-FUNCS.update({"torch.pow": f_pow, "torch.matmul": lambda I, a, b: _matmul(I, a, b), "torch.empty": f_empty, "torch.arange": f_arange, "torch.full": f_full, "torch.full_like": f_full_like, "torch.where": f_where, "torch.min": f_min})
+METH["softmax"] = f_softmax
+FUNCS.update({"torch.nn.functional.softmax": f_softmax, "torch.softmax": f_softmax, "torch.pow": f_pow, "torch.matmul": lambda I, a, b: _matmul(I, a, b), "torch.empty": f_empty, "torch.arange": f_arange, "torch.full": f_full, "torch.full_like": f_full_like, "torch.where": f_where, "torch.min": f_min})
 
 
 def stubs():
